@@ -803,8 +803,10 @@ def r4(run, ctx):
     run.check('R4', 'cursect[optname].append(value)' in t, 'continuation lines extend the value',
               rdf, rdf.node)
     se = ctx.fn('circus.config:DefaultConfigParser.set_env')
-    run.check('R4', 'self._env = dict(env)' in norm_text(se.node), 'set_env installs the '
-              'expansion environment', se, se.node)
+    from rules.common import attr_stores, is_copy_of
+    est = attr_stores(se.node, '_env')
+    run.check('R4', bool(est) and all(is_copy_of(se.node, v, 'env') for _, v in est),
+              'set_env installs the expansion environment', se, se.node)
 
 
 NONDET = ('random.', 'time.time', 'uuid.', 'os.listdir', 'os.getpid', 'datetime.')
